@@ -228,6 +228,29 @@ const CRON_BASE: [&str; 12] = [
 pub fn run(ctx: &Ctx) -> PropResult {
     let vals = sample_values();
     let vr = &vals;
+    // (2c) structural edits of well-formed default-form texts: EVERY deletion of 1..=7 consecutive characters and every
+    // duplication of 1..=3 (a dropped seconds field, a doubled colon, a missing sign …) for RFC 3339, yyyy-MM-dd, HH:mm:ss
+    let bases: [&str; 14] = [
+        "2022-05-02T15:30:20Z", "2022-05-02T15:30:20+01:00", "2022-05-02T15:30:20-00:30", "2022-05-02T15:30:20.5Z", "2022-05-02T15:30:20.123456789+23:59",
+        "0001-01-01T00:00:00Z", "9999-12-31T23:59:59.999999999-23:59", "2024-02-29T12:00:00.000+00:00", "2022-05-02T15:30:20.1234567891234567890123Z",
+        "2022-05-02", "-0044-03-15", "10000-01-01", "15:30:20", "00:00:00",
+    ];
+    let mut edits: Vec<(usize, usize, usize, bool)> = vec![];
+    for (bi, b) in bases.iter().enumerate() {
+        let n = b.chars().count();
+        for start in 0..n {
+            for len in 1..=7usize {
+                if start + len <= n {
+                    edits.push((bi, start, len, false));
+                }
+            }
+            for len in 1..=3usize {
+                if start + len <= n {
+                    edits.push((bi, start, len, true));
+                }
+            }
+        }
+    }
     let mut wls: Vec<Workload> = vec![];
 
     // (1) exhaustive: each symbol x width x every short input over a hostile alphabet
@@ -322,6 +345,25 @@ pub fn run(ctx: &Ctx) -> PropResult {
         }
         if idx % 4 == 0 {
             judge_format(rec, &pattern, idx as usize, vr, "same-component-pile-up");
+        }
+    }));
+    let er = &edits;
+    wls.push(Workload::cases("all_short_deletions_and_duplications_of_default_forms", edits.len() as u64, move |rec, idx, _| {
+        let (bi, start, len, dup) = er[idx as usize];
+        let cs: Vec<char> = bases[bi].chars().collect();
+        let text: String = if dup {
+            cs[..start + len].iter().chain(cs[start..].iter()).collect()
+        } else {
+            cs[..start].iter().chain(cs[start + len..].iter()).collect()
+        };
+        rec.bin("structural-edit/default-forms");
+        rec.nontrivial(hash_str(&text) ^ 0x1414);
+        rec.eval();
+        let r = trap(|| (DateTime::parse_rfc3339(&text).is_ok(), DateTime::from_str(&text).is_ok(), Date::from_str(&text).is_ok(), Time::from_str(&text).map(|t| t.as_nanos() < 86_400_000_000_000).unwrap_or(true)));
+        match r {
+            Err(p) => rec.violation(format!("C14|structural-edit|parse_rfc3339/from_str|panic|{},{}", p.class, p.site()), || json!({"text": text, "edit": if dup { "duplicated" } else { "deleted" }, "at": start, "len": len, "base": bases[bi], "panic": p.to_json()})),
+            Ok((_, _, _, false)) => rec.violation("C14|structural-edit|Time::from_str|ok-with-invalid-value".to_string(), || json!({"text": text})),
+            _ => {}
         }
     }));
     // (3) grammar-aware mutation of real round-trip material
